@@ -232,6 +232,19 @@ func checkC13(c *core.Ctx) {
 			})
 		}
 	}
+	// larger batches / class counts, generic interior values, every upstream form
+	for _, cf := range []cfg{{"MSE", []int{5}}, {"MSE", []int{33}}, {"BCE", []int{7}}, {"BCE", []int{33}}, {"CE", []int{5, 4}}, {"CE", []int{2, 9}}} {
+		for form := 0; form < nUpstreamForms; form++ {
+			for tt := 0; tt < 2; tt++ {
+				cf, form, tt := cf, form, tt
+				c.Case(fmt.Sprintf("%s/%v/generic/f%d/t%d", cf.kind, cf.shape, form, tt), true, func() core.Verdict {
+					p := enum.Generic(cf.shape, 180, 0.05, 0.95, false)
+					t := enum.Generic(cf.shape, 181, 0.05, 0.95, false)
+					return c13Run(cf.kind, p, t, form, tt == 1)
+				})
+			}
+		}
+	}
 	reuseLosses(c, true)
 }
 
@@ -262,9 +275,19 @@ func c15Run(act ref.Op, x *ref.T, form int, down int) core.Verdict {
 		prog.Nodes = append(prog.Nodes, ref.Node{Op: ref.Op{K: "Scale", F: 3}, In: []int{root}})
 		root++
 	case 2:
-		nL := len(prog.Leaves)
 		prog, root = withWeighting(prog, root, 23)
-		_ = nL
+	case 3: // an upstream weighting whose elements cancel exactly
+		prog, root = withWeighting(prog, root, 23)
+		w := prog.Leaves[len(prog.Leaves)-1]
+		if len(w.V) < 2 {
+			return core.Skip()
+		}
+		for i := 0; i+1 < len(w.V); i += 2 {
+			w.V[i+1] = -w.V[i]
+		}
+		if len(w.V)%2 == 1 {
+			w.V[len(w.V)-1] = 0
+		}
 	}
 	v := gradCase(prog, root, gradOpts{allowKF: true, tieNode: actNode + 1})
 	if !v.OK && !v.Skip {
@@ -294,11 +317,15 @@ func checkC15(c *core.Ctx) {
 			}
 		}
 	}
+	shapes = append(shapes, []int{5}, []int{33}, []int{2, 7}, []int{4, 5, 2})
 	for _, s := range shapes {
 		for _, act := range c15Acts(len(s)) {
 			for vi := 0; vi < 4; vi++ {
 				for form := 0; form < nUpstreamForms; form++ {
-					for down := 0; down < 3; down++ {
+					for down := 0; down < 4; down++ {
+						if down == 3 && (form > 2 || vi > 1) {
+							continue
+						}
 						s, act, vi, form, down := s, act, vi, form, down
 						nontrivial := form > 0 || down > 0
 						c.Case(fmt.Sprintf("%s/%v/v%d/f%d/d%d", act, s, vi, form, down), nontrivial, func() core.Verdict {
